@@ -335,7 +335,12 @@ class _ValueWrapperBase(HelperValueMixin):
         from jedi.inference.names import ValueName
         wrapped_name = self._wrapped_value.name
         if wrapped_name.tree_name is not None:
-            return ValueName(self, wrapped_name.tree_name)
+            name = ValueName(self, wrapped_name.tree_name)
+            # The tree name belongs to the module of the wrapped value, which
+            # is not necessarily the module of the wrapper (e.g. a function
+            # decorated by a wrapper from another module).
+            name.parent_context = wrapped_name.parent_context
+            return name
         else:
             from jedi.inference.compiled import CompiledValueName
             return CompiledValueName(self, wrapped_name.string_name)
